@@ -27,6 +27,7 @@ from chameleon.codegen import TemplateCodeGenerator
 from chameleon.codegen import template
 from chameleon.exc import ExpressionError
 from chameleon.exc import TranslationError
+from chameleon.i18n import NAME_RE
 from chameleon.i18n import simple_translate
 from chameleon.nodes import And
 from chameleon.nodes import Assignment
@@ -40,7 +41,6 @@ from chameleon.nodes import Substitution
 from chameleon.nodes import Text
 from chameleon.nodes import Value
 from chameleon.parser import groupdict
-from chameleon.tal import NAME
 from chameleon.tal import ErrorInfo
 from chameleon.tokenize import Token
 from chameleon.utils import ListDictProxy
@@ -59,7 +59,8 @@ COMPILER_INTERNALS_OR_DISALLOWED = {
 }
 
 RE_MANGLE = re.compile(r'[^\w_]')
-RE_NAME = re.compile('^%s$' % NAME)
+# A name that a message can refer to as ``${name}``
+RE_NAME = re.compile(r'^%s\Z' % NAME_RE)
 
 
 def identifier(prefix: str, suffix: str | None = None) -> str:
